@@ -958,7 +958,16 @@ func (i *BigInt) StrictEqualVal(other Value) Value {
 
 func rightBitshiftBigInt[T SimpleInt](i *BigInt, other T) Value {
 	if other < 0 {
-		return SmallInt(0).ToValue()
+		// the callers negate negative counts, only the lowest value
+		// of a type stays negative: shift by its magnitude
+		count := shiftCountMagnitude(other)
+		if count > math.MaxInt32 {
+			if i.ToGoBigInt().Sign() < 0 {
+				return SmallInt(-1).ToValue()
+			}
+			return SmallInt(0).ToValue()
+		}
+		return rightBitshiftBigInt(i, count)
 	}
 	result := ToElkBigInt((&big.Int{}).Rsh(i.ToGoBigInt(), uint(other)))
 	if result.IsSmallInt() {
@@ -1024,6 +1033,10 @@ func (i *BigInt) RightBitshiftBigInt(other *BigInt) Value {
 		}
 		return rightBitshiftBigInt(i, oSmall)
 	}
+	if !(other.ToGoBigInt().Sign() < 0) && (i.ToGoBigInt().Sign() < 0) {
+		// a shift to the right by more than all the bits of a negative number
+		return SmallInt(-1).ToValue()
+	}
 	return SmallInt(0).ToValue()
 }
 
@@ -1084,7 +1097,12 @@ func (i *BigInt) RightBitshiftUInt8(other UInt8) Value {
 
 func leftBitshiftBigInt[T SimpleInt](i *BigInt, other T) Value {
 	if other < 0 {
-		return SmallInt(0).ToValue()
+		// the negated lowest value of a type
+		count := shiftCountMagnitude(other)
+		if count > math.MaxInt32 {
+			return SmallInt(0).ToValue()
+		}
+		return leftBitshiftBigInt(i, count)
 	}
 	return Ref(ToElkBigInt((&big.Int{}).Lsh(i.ToGoBigInt(), uint(other))))
 }
@@ -1154,28 +1172,50 @@ func (i *BigInt) LeftBitshiftInt(other Value) Value {
 func (i *BigInt) LeftBitshiftBigInt(other *BigInt) Value {
 	if other.IsSmallInt() {
 		oSmall := other.ToSmallInt()
+		if oSmall < 0 {
+			return rightBitshiftBigInt(i, -oSmall)
+		}
 		return leftBitshiftBigInt(i, oSmall)
+	}
+	if (other.ToGoBigInt().Sign() < 0) && (i.ToGoBigInt().Sign() < 0) {
+		// a shift to the right by more than all the bits of a negative number
+		return SmallInt(-1).ToValue()
 	}
 	return SmallInt(0).ToValue()
 }
 
 func (i *BigInt) LeftBitshiftSmallInt(other SmallInt) Value {
+	if other < 0 {
+		return rightBitshiftBigInt(i, -other)
+	}
 	return leftBitshiftBigInt(i, other)
 }
 
 func (i *BigInt) LeftBitshiftInt64(other Int64) Value {
+	if other < 0 {
+		return rightBitshiftBigInt(i, -other)
+	}
 	return leftBitshiftBigInt(i, other)
 }
 
 func (i *BigInt) LeftBitshiftInt32(other Int32) Value {
+	if other < 0 {
+		return rightBitshiftBigInt(i, -other)
+	}
 	return leftBitshiftBigInt(i, other)
 }
 
 func (i *BigInt) LeftBitshiftInt16(other Int16) Value {
+	if other < 0 {
+		return rightBitshiftBigInt(i, -other)
+	}
 	return leftBitshiftBigInt(i, other)
 }
 
 func (i *BigInt) LeftBitshiftInt8(other Int8) Value {
+	if other < 0 {
+		return rightBitshiftBigInt(i, -other)
+	}
 	return leftBitshiftBigInt(i, other)
 }
 
